@@ -536,7 +536,11 @@ func (w *schedWorld) dirSchedules(r *ev.Run, count int) {
 	}
 	for i := 0; i < count; i++ {
 		rng := gen.New(r.Seed, fmt.Sprintf("c17-dirsched-%d", i))
-		sc := randomDirScenario(rng, fmt.Sprintf("dir-shared#%d", i), 1+i%2, 1, 1)
+		writersA := 1
+		if i%3 == 2 {
+			writersA = 2 // two writers sharing the handle: the flock of their common open file does not keep them apart, the process mutex must
+		}
+		sc := randomDirScenario(rng, fmt.Sprintf("dir-shared#%d", i), 1+i%2, writersA, 1)
 		clean, res := w.runDirScenario(r, sc, ksrig.SchedRandom{Rng: rng}, "dirsched-random", map[string]interface{}{"schedule_index": i, "seed": r.Seed})
 		if clean && i < 2 {
 			r.SampleN("dirsched", 2, map[string]interface{}{"kind": "controlled schedule on a directory: threads sharing handle 0 + a writer on handle 1, real flock", "setup": fmt.Sprint(sc.Setup),
